@@ -9,7 +9,9 @@ only if it really is reached behind one of the IsValid gates — check the call 
 """
 import sys
 
-def cls(fn, fld):
+def cls(fn, fld, kind="field"):
+    if kind == "star":
+        fld = "*" + fld
     pkg, f = fn.split(":")
     modelled = {
      ("blockchain/types:Header.Height","ProposedHeader"),("blockchain/types:Header.Height","EmptyBlockHeader"),
@@ -53,11 +55,11 @@ def cls(fn, fld):
         return "stored-chain", "block / header read back from the node's own database or already inserted into the chain"
     return "post-gate", "reached only with objects that passed Header.IsValid / Block.IsValid / BlockProposal.IsValid / Vote.IsValid / blockRange.IsValid (the gates of Model/Messages.lean); see DESIGN C12"
 
-out = ["# C12 dereference census expectation: function<TAB>field<TAB>file<TAB>UNGUARDED dereferences (pinned)<TAB>nil-guarded ones (informational)<TAB>class<TAB>reason",
+out = ["# C12 dereference census expectation: function<TAB>field<TAB>kind (field x.F.g | call x.F.m() | star *x.F)<TAB>file<TAB>distinct UNGUARDED access paths (pinned)<TAB>nil-guarded ones (informational)<TAB>class<TAB>reason",
        "# unguarded = not dominated by a nil test of the same access path in the function (see census.go); predecessors (prevBlock.ProposedHeader…) must stay guarded: an unguarded one changes the pinned count",
        "# classes: modelled (must be in Msg.modelledSites) | nil-checked | nil-safe-callee | post-gate | local-object | stored-chain | encoder | tx-validator | post-validate | not-network | type-expr"]
 for l in open(sys.argv[1]):
-    fn, fld, file, n, g = l.rstrip("\n").split("\t")
-    c, why = cls(fn, fld)
-    out.append("\t".join([fn, fld, file, n, g, c, why]))
+    fn, fld, kind, file, n, g = l.rstrip("\n").split("\t")
+    c, why = cls(fn, fld, kind)
+    out.append("\t".join([fn, fld, kind, file, n, g, c, why]))
 print("\n".join(out))
